@@ -725,6 +725,13 @@ macro_rules | `(tactic| pres_prim) => `(tactic| with_reducible first
   | exact corePres_deallocBytes _ | exact corePres_dropGuard _ | exact corePres_readUpvalueLoc _
   | exact corePres_guardVal _ | exact corePres_unguardVal _)
 
+theorem corePres_guardRows (es : List (Val × Val)) : Pres CoreR (guardRows es) := by
+  unfold guardRows; pres_auto
+theorem corePres_unguardRows (es : List (Val × Val)) : Pres CoreR (unguardRows es) := by
+  unfold unguardRows; pres_auto
+macro_rules | `(tactic| pres_prim) => `(tactic| with_reducible first
+  | exact corePres_guardRows _ | exact corePres_unguardRows _)
+
 theorem corePres_nativeConv (name : String) : Pres CoreR (nativeConv name) := by
   unfold nativeConv; pres_auto
 
